@@ -286,8 +286,9 @@ class LookAtTransform(Transform):
 
         front = toUnitVec(numpy.subtract(eye, interest))
         side = numpy.multiply(-1, toUnitVec(numpy.cross(front, upvector)))
+        up = numpy.cross(front, side)
         self.matrix[0:3, 0] = side
-        self.matrix[0:3, 1] = upvector
+        self.matrix[0:3, 1] = up
         self.matrix[0:3, 2] = front
         self.matrix[0:3, 3] = eye
 
